@@ -8,7 +8,9 @@ Tie: the extracted model (ocaml/c19) and the real crate (harness bin c19) run on
      set with captures and by count), and with 2-5-entry matchers on generated sets (the entry the
      implementation returned is given to the model as the iteration-order oracle);
  (b) DispatchConn::run in a thread over a scripted connection: up to 8 incoming messages, handlers that
-     log, add routes and return Some/None/Err; invocation log and the replies read at the peer are compared.
+     log, add routes and return Some/None/Err; run() is called again after every failing handler (so that
+     routes a failing handler asked for would show on later messages); invocation log, the replies read at
+     the peer and the sequence of run() results are compared.
 On a difference the property predicate is evaluated on the implementation's own output.
 """
 import concurrent.futures as cf
@@ -213,7 +215,8 @@ def gen_run(r):
     msgs = []
     p_err = r.choice([0.0, 0.0, 0.1, 0.25])
     for i in range(nmsg):
-        typ = "c" if r.random() < 0.93 else "r"
+        k = r.random()
+        typ = "c" if k < 0.85 else ("k" if k < 0.93 else "r")      # k: a call that also carries a REPLY_SERIAL field
         k = r.random()
         res = "E" if k < p_err else ("S" if k < p_err + 0.45 else "N")
         body = "".join(r.choice("abcxyz019 _") for _ in range(r.randint(0, 6))) if res == "S" else ""
@@ -223,7 +226,7 @@ def gen_run(r):
                 nr.append((gen_route(r, paths[i + 1:] or paths), nextid[0]))
                 nextid[0] += 1
         sender = None if r.random() < 0.15 else ":1.%d" % r.randint(1, 99)
-        msgs.append({"serial": 10 + i, "typ": typ, "obj": paths[i] if typ == "c" else None, "sender": sender,
+        msgs.append({"serial": 10 + i, "typ": typ, "obj": paths[i] if typ != "r" else None, "sender": sender,
                      "res": res, "body": body, "newroutes": nr})
     return {"routes": routes, "msgs": msgs}
 
@@ -251,8 +254,13 @@ def parse_out(line):
 
 
 def call_replies(case, replies):
-    """the replies that answer method calls (the property is silent about answers to other messages)"""
-    noncall = {str(m["serial"]) for m in case["msgs"] if m["typ"] != "c"}
+    """the replies that answer method calls (the property is silent about answers to other messages).
+    Replies are written in message order: when there is one per successfully handled message they are
+    attributed by position, otherwise by reply serial."""
+    ok = [m for m in case["msgs"] if m["res"] != "E"]
+    if len(replies) == len(ok):
+        return [x for m, x in zip(ok, replies) if m["typ"] != "r"]
+    noncall = {str(m["serial"]) for m in case["msgs"] if m["typ"] == "r"}
     return [x for x in replies if x.split(";")[1] not in noncall]
 
 
@@ -262,11 +270,12 @@ def judge_run(case, out, sets):
     msgs = case["msgs"]
     if any(x.startswith("undecodable") for x in out["replies"]):
         return "the bytes written to the caller are not well-formed messages"
-    first_err = next((i for i, m in enumerate(msgs) if m["res"] == "E"), None)
-    nproc = len(msgs) if first_err is None else first_err + 1
+    # the harness calls run() again after every failing handler, so every message is dispatched
+    nerr = sum(1 for m in msgs if m["res"] == "E")
+    nproc = len(msgs)
     log = [x.split(";") for x in out["log"]]
     if len(log) != nproc:
-        return "%d handler invocations for %d messages up to the first failing handler (exactly one per message expected)" % (len(log), nproc)
+        return "%d handler invocations for %d messages (exactly one per message expected)" % (len(log), nproc)
     for i in range(nproc):
         who, serial, caps = log[i]
         if serial != str(msgs[i]["serial"]):
@@ -283,7 +292,7 @@ def judge_run(case, out, sets):
     want = []
     for i in range(nproc):
         m = msgs[i]
-        if m["typ"] == "c" and m["res"] != "E":
+        if m["typ"] != "r" and m["res"] != "E":
             want.append(m)
     got = call_replies(case, out["replies"])
     if len(got) != len(want):
@@ -298,8 +307,8 @@ def judge_run(case, out, sets):
             return "the handler's reply to call %d was not the message written" % m["serial"]
         if m["res"] == "N" and (body != "-" or codes not in ("5", "5.6")):
             return "the default reply to call %d is not empty" % m["serial"]
-    if out["end"] != ("conn" if first_err is None else "handler"):
-        return "run ended with '%s'" % out["end"]
+    if out["end"] != ",".join(["handler"] * nerr + ["conn"]):
+        return "run() returned %s for %d failing handlers (it must stop at each failing handler and only there)" % (out["end"], nerr)
     return None
 
 
@@ -325,7 +334,7 @@ def check_run(ctx, exe, drv, cases):
         ctx.case(("run", run_line(c)), nontrivial=nt,
                  sample={"case": run_line(c), "impl": li} if nt and len(c["msgs"]) >= 4 and len(ctx.samples) < 6 else None)
         ctx.count("run:msgs=%d" % len(c["msgs"]))
-        ctx.count("run:end=" + om["end"])
+        ctx.count("run:failing_handlers=%d" % om["end"].count("handler"))
         ctx.count("run:routed_invocations", routed)
         ctx.count("run:default_invocations", len(om["log"]) - routed)
         ctx.count("run:routes_added_by_handlers", added)
